@@ -5,6 +5,7 @@ loop analyses of `wakeLoop`, `sleepCycleGo`, `sleepTreesGo`, `mj_sleep`, `bodyLo
 -/
 import MjProof.Model.Sleep
 import Mathlib.Dynamics.PeriodicPts.Lemmas
+import Mathlib.Data.List.Nodup
 
 namespace MjProof.Sleep
 
@@ -157,5 +158,1148 @@ theorem Cyc.awake_change {ta ta' : TA n} (hc : Cyc ta)
 
 theorem cyc_of_all_awake {ta : TA n} (h : ∀ j : Fin n, ta[j] < 0) : Cyc ta :=
   ⟨fun j hj => by have := h j; omega, fun j _ hj => by have := h j; omega⟩
+
+/-! ## mj_wakeIsland -/
+
+open Classical in
+/-- the array after the first `t` iterations of the walk from `i` -/
+noncomputable def wokeUpTo (ta : TA n) (i : Fin n) (w : Int) (t : Nat) : TA n :=
+  Vector.ofFn fun j => if ∃ s, s < t ∧ (succ ta)^[s] i = j then w else ta[j]
+
+theorem wokeUpTo_get (ta : TA n) (i : Fin n) (w : Int) (t : Nat) (j : Fin n) :
+    (wokeUpTo ta i w t)[j] = if ∃ s, s < t ∧ (succ ta)^[s] i = j then w else ta[j] := by
+  simp [wokeUpTo]
+
+theorem wokeUpTo_zero (ta : TA n) (i : Fin n) (w : Int) : wokeUpTo ta i w 0 = ta := by
+  apply Vector.ext; intro j hj
+  have := wokeUpTo_get ta i w 0 ⟨j, hj⟩
+  simpa using this
+
+theorem wakeLoop_step (start : Nat) (w : Int) (ta : TA n) (cur : Fin n) (k : Nat)
+    (h : 0 ≤ ta[cur] ∧ ta[cur] < (n : Int)) :
+    wakeLoop start w ta cur k =
+      if (ta[cur].toNat ≠ start ∧ k + 1 < n) then
+        wakeLoop start w (ta.set cur w) ⟨ta[cur].toNat, by omega⟩ (k + 1)
+      else if ta[cur].toNat ≠ start then (ta.set cur w, .err .notCycle)
+      else (ta.set cur w, .ok (k + 1)) := by
+  rw [wakeLoop]; simp only [dif_pos h]
+
+theorem wakeLoop_spec {ta : TA n} (hc : Cyc ta) {i : Fin n} (hi : 0 ≤ ta[i]) (w : Int) :
+    ∀ (d t : Nat), t + d + 1 = period ta i →
+      wakeLoop i.val w (wokeUpTo ta i w t) ((succ ta)^[t] i) t =
+        (wokeUpTo ta i w (period ta i), .ok (period ta i)) := by
+  intro d
+  induction d with
+  | zero =>
+    intro t ht
+    have hcur : (wokeUpTo ta i w t)[(succ ta)^[t] i] = ta[(succ ta)^[t] i] := by
+      rw [wokeUpTo_get, if_neg]
+      rintro ⟨s, hs, he⟩
+      have := iterate_inj_of_lt_period (by omega) (by omega) he; omega
+    have has := hc.iterate_asleep hi t
+    have hlt := hc.lt has
+    rw [wakeLoop_step _ _ _ _ _ (by rw [hcur]; exact ⟨has, hlt⟩)]
+    have hnx : (wokeUpTo ta i w t)[(succ ta)^[t] i].toNat = i.val := by
+      rw [hcur]
+      have h1 := hc.succ_val has
+      have h2 : (succ ta)^[t + 1] i = i := by rw [ht]; exact iterate_period ta i
+      rw [iterate_succ_apply'] at h2
+      rw [h2] at h1; omega
+    rw [if_neg (by omega), if_neg (by omega)]
+    congr 1
+    · apply Vector.ext; intro j hj
+      rw [Vector.getElem_set]
+      have e1 := wokeUpTo_get ta i w t ⟨j, hj⟩
+      have e2 := wokeUpTo_get ta i w (period ta i) ⟨j, hj⟩
+      simp only [Fin.getElem_fin] at e1 e2
+      rw [e1, e2]
+      by_cases hj2 : ((succ ta)^[t] i).val = j
+      · rw [if_pos hj2, if_pos]
+        exact ⟨t, by omega, Fin.ext hj2⟩
+      · rw [if_neg hj2]
+        congr 1
+        apply propext
+        constructor
+        · rintro ⟨s, hs, he⟩; exact ⟨s, by omega, he⟩
+        · rintro ⟨s, hs, he⟩
+          refine ⟨s, ?_, he⟩
+          by_contra hh
+          have : s = t := by omega
+          subst this
+          exact hj2 (by rw [he])
+    · rw [← ht]
+  | succ d ih =>
+    intro t ht
+    have hcur : (wokeUpTo ta i w t)[(succ ta)^[t] i] = ta[(succ ta)^[t] i] := by
+      rw [wokeUpTo_get, if_neg]
+      rintro ⟨s, hs, he⟩
+      have := iterate_inj_of_lt_period (by omega) (by omega) he; omega
+    have has := hc.iterate_asleep hi t
+    have hlt := hc.lt has
+    rw [wakeLoop_step _ _ _ _ _ (by rw [hcur]; exact ⟨has, hlt⟩)]
+    have hnx : (⟨(wokeUpTo ta i w t)[(succ ta)^[t] i].toNat, by rw [hcur]; omega⟩ : Fin n) = (succ ta)^[t + 1] i := by
+      apply Fin.ext
+      simp only
+      rw [hcur, iterate_succ_apply']
+      have h1 := hc.succ_val has
+      omega
+    have hne : (wokeUpTo ta i w t)[(succ ta)^[t] i].toNat ≠ i.val := by
+      have h1 := congrArg Fin.val hnx
+      simp only at h1
+      rw [h1]
+      intro he
+      exact iterate_ne_of_lt_period (by omega) (by omega) (Fin.ext he)
+    have hpn := period_le ta i
+    rw [if_pos ⟨hne, by omega⟩]
+    have hset : (wokeUpTo ta i w t).set ((succ ta)^[t] i) w = wokeUpTo ta i w (t + 1) := by
+      apply Vector.ext; intro j hj
+      rw [Vector.getElem_set]
+      have e1 := wokeUpTo_get ta i w t ⟨j, hj⟩
+      have e2 := wokeUpTo_get ta i w (t + 1) ⟨j, hj⟩
+      simp only [Fin.getElem_fin] at e1 e2
+      rw [e1, e2]
+      by_cases hj2 : ((succ ta)^[t] i).val = j
+      · rw [if_pos hj2, if_pos]
+        exact ⟨t, by omega, Fin.ext hj2⟩
+      · rw [if_neg hj2]
+        congr 1
+        apply propext
+        constructor
+        · rintro ⟨s, hs, he⟩; exact ⟨s, by omega, he⟩
+        · rintro ⟨s, hs, he⟩
+          refine ⟨s, ?_, he⟩
+          by_contra hh
+          have : s = t := by omega
+          subst this
+          exact hj2 (by rw [he])
+    have := ih (t + 1) (by omega)
+    rw [← this]
+    congr 1
+
+theorem wokeUpTo_period {ta : TA n} (hc : Cyc ta) (i : Fin n) (w : Int) (j : Fin n) :
+    (wokeUpTo ta i w (period ta i))[j] = (open Classical in if InOrbit ta i j then w else ta[j]) := by
+  rw [wokeUpTo_get]
+  have := inOrbit_iff_lt_period hc i j
+  by_cases h : InOrbit ta i j
+  · rw [if_pos h, if_pos (this.1 h)]
+  · rw [if_neg h, if_neg (fun hh => h (this.2 hh))]
+
+theorem wakeIsland_fin (ta : TA n) (i : Fin n) (w : Int) :
+    wakeIsland ta (i.val : Int) w =
+      if ta[i] < 0 then (ta.set i (if w < ta[i] then w else ta[i]), .ok 0) else wakeLoop i.val w ta i 0 := by
+  have hr : 0 ≤ ((i.val : Nat) : Int) ∧ ((i.val : Nat) : Int) < (n : Int) := ⟨by omega, by exact_mod_cast i.isLt⟩
+  unfold wakeIsland
+  rw [dif_pos hr]
+  simp only [Int.toNat_natCast, Fin.eta]
+
+/-- `mj_wakeIsland` on a sleeping tree of a well-formed array: no error exit, the whole cycle is overwritten. -/
+theorem wakeIsland_asleep {ta : TA n} (hc : Cyc ta) (i : Fin n) (hi : 0 ≤ ta[i]) (w : Int) :
+    wakeIsland ta (i.val : Int) w = (wokeUpTo ta i w (period ta i), .ok (period ta i)) := by
+  rw [wakeIsland_fin, if_neg (by omega)]
+  have hp := hc.period_pos i
+  have := wakeLoop_spec hc hi w (period ta i - 1) 0 (by omega)
+  rw [wokeUpTo_zero] at this
+  simpa using this
+
+theorem wakeIsland_awake (ta : TA n) (i : Fin n) (hi : ta[i] < 0) (w : Int) :
+    wakeIsland ta (i.val : Int) w = (ta.set i (if w < ta[i] then w else ta[i]), .ok 0) := by
+  rw [wakeIsland_fin, if_pos hi]
+
+theorem wakeIsland_oob (ta : TA n) (i : Int) (hi : ¬ (0 ≤ i ∧ i < (n : Int))) (w : Int) :
+    wakeIsland ta i w = (ta, .err .invalidTree) := by
+  unfold wakeIsland; rw [dif_neg hi]
+
+theorem int_cases_fin (i : Int) : (∃ f : Fin n, i = (f.val : Int)) ∨ ¬ (0 ≤ i ∧ i < (n : Int)) := by
+  by_cases h : 0 ≤ i ∧ i < (n : Int)
+  · left; exact ⟨⟨i.toNat, by omega⟩, by simp; omega⟩
+  · right; exact h
+
+/-- `mj_wakeIsland` preserves the cycle invariant (any index, any negative wake value). -/
+theorem wakeIsland_cyc {ta : TA n} (hc : Cyc ta) (i : Int) {w : Int} (hw : w < 0) :
+    Cyc (wakeIsland ta i w).1 := by
+  rcases int_cases_fin (n := n) i with ⟨f, rfl⟩ | ho
+  · by_cases hf : 0 ≤ ta[f]
+    · rw [wakeIsland_asleep hc f hf w]
+      apply hc.wake_set (fun j => InOrbit ta f j)
+      · intro j hj; simp only; rw [wokeUpTo_period hc, if_pos hj]; exact hw
+      · intro j hj; left; simp only; rw [wokeUpTo_period hc, if_neg hj]
+      · intro j k hj hnj hjk hk
+        apply hnj
+        apply hc.pred_inOrbit
+        have : succ ta j = k := by
+          apply Fin.ext; have := hc.succ_val hj; omega
+        rw [this]; exact hk
+    · rw [wakeIsland_awake ta f (by omega) w]
+      apply hc.awake_change
+      intro j
+      simp only
+      by_cases hjf : f = j
+      · subst hjf
+        right
+        refine ⟨by omega, ?_⟩
+        rw [Fin.getElem_fin, Vector.getElem_set_self]
+        split <;> omega
+      · left
+        rw [Fin.getElem_fin, Vector.getElem_set_ne]
+        · rfl
+        · intro h; exact hjf (Fin.ext h)
+  · rw [wakeIsland_oob ta i ho w]; exact hc
+
+/-- awake trees stay awake through `mj_wakeIsland` (negative wake value) -/
+theorem wakeIsland_awake_mono {ta : TA n} (hc : Cyc ta) (i : Int) {w : Int} (hw : w < 0) (j : Fin n)
+    (hj : ta[j] < 0) : (wakeIsland ta i w).1[j] < 0 := by
+  rcases int_cases_fin (n := n) i with ⟨f, rfl⟩ | ho
+  · by_cases hf : 0 ≤ ta[f]
+    · rw [wakeIsland_asleep hc f hf w]
+      simp only; rw [wokeUpTo_period hc]
+      split <;> omega
+    · rw [wakeIsland_awake ta f (by omega) w]
+      simp only
+      by_cases hjf : f = j
+      · subst hjf
+        rw [Fin.getElem_fin, Vector.getElem_set_self]
+        split <;> omega
+      · rw [Fin.getElem_fin, Vector.getElem_set_ne]
+        · exact hj
+        · intro h; exact hjf (Fin.ext h)
+  · rw [wakeIsland_oob ta i ho w]; exact hj
+
+/-! ## mj_sleepCycle -/
+
+theorem sleepCycleGo_step (ta : TA n) (i sm : Nat) (cur : Fin n) (count : Nat) (hcount : ¬ count > n)
+    (h : 0 ≤ ta[cur] ∧ ta[cur] < (n : Int)) :
+    sleepCycleGo ta i sm cur count =
+      if ta[cur].toNat ≠ i then
+        sleepCycleGo ta i (if ta[cur].toNat < sm then ta[cur].toNat else sm) ⟨ta[cur].toNat, by omega⟩ (count + 1)
+      else (((if ta[cur].toNat < sm then ta[cur].toNat else sm) : Nat) : Int) := by
+  rw [sleepCycleGo]; simp only [if_neg hcount, dif_pos h]
+
+theorem sleepCycleGo_spec {ta : TA n} (hc : Cyc ta) {i : Fin n} (hi : 0 ≤ ta[i]) :
+    ∀ (d t sm : Nat), t + d + 1 = period ta i →
+      ∃ r : Nat, sleepCycleGo ta i.val sm ((succ ta)^[t] i) t = (r : Int) ∧
+        (r = sm ∨ ∃ s, t < s ∧ s ≤ period ta i ∧ r = ((succ ta)^[s] i).val) ∧
+        r ≤ sm ∧ ∀ s, t < s → s ≤ period ta i → r ≤ ((succ ta)^[s] i).val := by
+  intro d
+  induction d with
+  | zero =>
+    intro t sm ht
+    have has := hc.iterate_asleep hi t
+    have hlt := hc.lt has
+    have hpn := period_le ta i
+    rw [sleepCycleGo_step _ _ _ _ _ (by omega) ⟨has, hlt⟩]
+    have h2 : (succ ta)^[t + 1] i = i := by rw [ht]; exact iterate_period ta i
+    have hnx : ta[(succ ta)^[t] i].toNat = i.val := by
+      have h1 := hc.succ_val has
+      rw [iterate_succ_apply'] at h2
+      rw [h2] at h1; omega
+    rw [if_neg (by omega)]
+    refine ⟨_, rfl, ?_, ?_, ?_⟩
+    · rw [hnx]
+      by_cases hlt2 : i.val < sm
+      · right; refine ⟨t + 1, by omega, by omega, ?_⟩; rw [if_pos hlt2, h2]
+      · left; rw [if_neg hlt2]
+    · split <;> omega
+    · intro s hs1 hs2
+      have : s = t + 1 := by omega
+      subst this
+      rw [h2, hnx]; split <;> omega
+  | succ d ih =>
+    intro t sm ht
+    have has := hc.iterate_asleep hi t
+    have hlt := hc.lt has
+    have hpn := period_le ta i
+    rw [sleepCycleGo_step _ _ _ _ _ (by omega) ⟨has, hlt⟩]
+    have hnx : (⟨ta[(succ ta)^[t] i].toNat, by omega⟩ : Fin n) = (succ ta)^[t + 1] i := by
+      apply Fin.ext
+      simp only
+      rw [iterate_succ_apply']
+      have h1 := hc.succ_val has
+      omega
+    have hne : ta[(succ ta)^[t] i].toNat ≠ i.val := by
+      have h1 := congrArg Fin.val hnx
+      simp only at h1
+      rw [h1]
+      intro he
+      exact iterate_ne_of_lt_period (by omega) (by omega) (Fin.ext he)
+    rw [if_pos hne, hnx]
+    have hv : ta[(succ ta)^[t] i].toNat = ((succ ta)^[t + 1] i).val := congrArg Fin.val hnx
+    obtain ⟨r, hr, hmem, hle, hall⟩ := ih (t + 1) (if ta[(succ ta)^[t] i].toNat < sm then ta[(succ ta)^[t] i].toNat else sm) (by omega)
+    refine ⟨r, hr, ?_, ?_, ?_⟩
+    · rcases hmem with h | ⟨s, hs1, hs2, hs3⟩
+      · by_cases hlt2 : ta[(succ ta)^[t] i].toNat < sm
+        · right; refine ⟨t + 1, by omega, by omega, ?_⟩; rw [h, if_pos hlt2, hv]
+        · left; rw [h, if_neg hlt2]
+      · right; exact ⟨s, by omega, hs2, hs3⟩
+    · have : (if ta[(succ ta)^[t] i].toNat < sm then ta[(succ ta)^[t] i].toNat else sm) ≤ sm := by split <;> omega
+      omega
+    · intro s hs1 hs2
+      by_cases hst : s = t + 1
+      · subst hst
+        have : (if ta[(succ ta)^[t] i].toNat < sm then ta[(succ ta)^[t] i].toNat else sm) ≤ ta[(succ ta)^[t] i].toNat := by
+          split <;> omega
+        omega
+      · exact hall s (by omega) hs2
+
+/-- `mj_sleepCycle` on a sleeping tree of a well-formed array returns the smallest index of its cycle. -/
+theorem sleepCycle_spec {ta : TA n} (hc : Cyc ta) (i : Fin n) (hi : 0 ≤ ta[i]) :
+    ∃ m : Fin n, sleepCycle ta (i.val : Int) = (m.val : Int) ∧ InOrbit ta i m ∧
+      ∀ j, InOrbit ta i j → m.val ≤ j.val := by
+  have hr : 0 ≤ ((i.val : Nat) : Int) ∧ ((i.val : Nat) : Int) < (n : Int) := ⟨by omega, by exact_mod_cast i.isLt⟩
+  have hp := hc.period_pos i
+  obtain ⟨r, hr1, hmem, hle, hall⟩ := sleepCycleGo_spec hc hi (period ta i - 1) 0 i.val (by omega)
+  have hrn : r < n := by omega
+  refine ⟨⟨r, hrn⟩, ?_, ?_, ?_⟩
+  · unfold sleepCycle
+    rw [dif_pos hr]
+    simp only [Int.toNat_natCast, Fin.eta]
+    simpa using hr1
+  · rcases hmem with h | ⟨s, _, _, hs⟩
+    · exact ⟨0, Fin.ext (by simp [h])⟩
+    · exact ⟨s, Fin.ext (by simp [hs])⟩
+  · intro j hj
+    obtain ⟨t, ht, he⟩ := (inOrbit_iff_lt_period hc i j).1 hj
+    simp only
+    by_cases h0 : t = 0
+    · subst h0; simp at he; rw [← he]; exact hle
+    · rw [← he]; exact hall t (by omega) (by omega)
+
+/-! ## mj_sleepTrees -/
+
+variable {nv : Nat} {V : Type}
+
+theorem zeroRange_get (zero : V) (v : Vector V nv) (adr num : Nat) (i : Fin nv) :
+    (zeroRange zero v adr num)[i] = if adr ≤ i.val ∧ i.val < adr + num then zero else v[i] := by
+  simp [zeroRange]
+
+theorem set_get_fin (ta : TA n) (c j : Fin n) (x : Int) :
+    (ta.set c x)[j] = if c = j then x else ta[j] := by
+  by_cases h : c = j
+  · subst h; simp
+  · rw [if_neg h, Fin.getElem_fin, Vector.getElem_set_ne]
+    · rfl
+    · intro hh; exact h (Fin.ext hh)
+
+/-- The loop of `mj_sleepTrees`, when it completes without error: the trees were distinct and ready, the
+    entries outside the list are untouched, and entry `k` of the list points to entry `k+1` (the last one to
+    `first`). -/
+theorem sleepTreesGo_spec (zero : V) (td : TreeDofs n nv) (first : Fin n) :
+    ∀ (l : List (Fin n)) (s s' : St n nv V), sleepTreesGo zero td first l s = (s', none) →
+      l.Nodup ∧ (∀ t ∈ l, s.ta[t] = -1) ∧ (∀ j : Fin n, j ∉ l → s'.ta[j] = s.ta[j]) ∧
+      (∀ k (hk : k < l.length),
+        s'.ta[l[k]] = (((if h : k + 1 < l.length then l[k + 1] else first) : Fin n).val : Int)) := by
+  intro l
+  induction l with
+  | nil =>
+    intro s s' h
+    simp only [sleepTreesGo, Prod.mk.injEq, and_true] at h
+    subst h
+    exact ⟨List.nodup_nil, by simp, fun _ _ => rfl, fun k hk => by simp at hk⟩
+  | cons cur rest ih =>
+    intro s s' h
+    simp only [sleepTreesGo] at h
+    by_cases hready : s.ta[cur] = -1
+    · rw [if_pos hready] at h
+      obtain ⟨hnd, hrd, hout, hlink⟩ := ih _ _ h
+      simp only at hrd hout hlink
+      have hcur : cur ∉ rest := by
+        intro hm
+        have := hrd cur hm
+        rw [set_get_fin, if_pos rfl] at this
+        split at this <;> omega
+      refine ⟨List.nodup_cons.2 ⟨hcur, hnd⟩, ?_, ?_, ?_⟩
+      · intro t ht
+        rcases List.mem_cons.1 ht with rfl | ht
+        · exact hready
+        · have := hrd t ht
+          rw [set_get_fin] at this
+          by_cases hct : cur = t
+          · subst hct; exact (hcur ht).elim
+          · rwa [if_neg hct] at this
+      · intro j hj
+        have hj1 : j ≠ cur := fun e => hj (e ▸ List.mem_cons_self)
+        have hj2 : j ∉ rest := fun e => hj (List.mem_cons_of_mem _ e)
+        rw [hout j hj2, set_get_fin, if_neg (fun e => hj1 e.symm)]
+      · intro k hk
+        cases k with
+        | zero =>
+          simp only [List.getElem_cons_zero]
+          rw [hout cur hcur, set_get_fin, if_pos rfl]
+          cases rest with
+          | nil => simp
+          | cons nx more => simp
+        | succ k =>
+          have hk' : k < rest.length := by simpa using hk
+          have := hlink k hk'
+          simp only [List.getElem_cons_succ, List.length_cons]
+          rw [this]
+          by_cases hk2 : k + 1 < rest.length
+          · rw [dif_pos hk2, dif_pos (by omega)]
+          · rw [dif_neg hk2, dif_neg (by omega)]
+    · rw [if_neg hready] at h
+      split at h <;> simp at h
+
+/-- successor index inside the list: `k+1`, wrapping to `0` -/
+def nextIdx (len k : Nat) : Nat := if k + 1 < len then k + 1 else 0
+
+theorem nextIdx_lt {len k : Nat} (h : k < len) : nextIdx len k < len := by
+  unfold nextIdx; split <;> omega
+
+theorem nextIdx_inj {len a b : Nat} (ha : a < len) (hb : b < len) (h : nextIdx len a = nextIdx len b) : a = b := by
+  unfold nextIdx at h; split at h <;> split at h <;> omega
+
+/-- `mj_sleepTrees` completing without error: entry `k` points to entry `(k+1) mod len`. -/
+theorem sleepTrees_spec (zero : V) (td : TreeDofs n nv) (l : List (Fin n)) (s s' : St n nv V)
+    (h : sleepTrees zero td l s = (s', none)) :
+    l.Nodup ∧ (∀ t ∈ l, s.ta[t] = -1) ∧ (∀ j : Fin n, j ∉ l → s'.ta[j] = s.ta[j]) ∧
+    (∀ k (hk : k < l.length), s'.ta[l[k]] = ((l[nextIdx l.length k]'(nextIdx_lt hk)).val : Int)) := by
+  cases l with
+  | nil =>
+    simp only [sleepTrees, Prod.mk.injEq, and_true] at h
+    subst h
+    exact ⟨List.nodup_nil, by simp, fun _ _ => rfl, fun k hk => by simp at hk⟩
+  | cons first rest =>
+    simp only [sleepTrees] at h
+    obtain ⟨h1, h2, h3, h4⟩ := sleepTreesGo_spec zero td first _ _ _ h
+    refine ⟨h1, h2, h3, ?_⟩
+    intro k hk
+    rw [h4 k hk]
+    unfold nextIdx
+    by_cases hk2 : k + 1 < (first :: rest).length
+    · simp only [dif_pos hk2, if_pos hk2]
+    · simp only [dif_neg hk2, if_neg hk2, List.getElem_cons_zero]
+
+/-- `mj_sleepTrees` preserves the cycle invariant whenever it completes. -/
+theorem sleepTrees_cyc (zero : V) (td : TreeDofs n nv) (l : List (Fin n)) (s s' : St n nv V)
+    (hc : Cyc s.ta) (h : sleepTrees zero td l s = (s', none)) : Cyc s'.ta := by
+  obtain ⟨hnd, hrd, hout, hlink⟩ := sleepTrees_spec zero td l s s' h
+  have hin : ∀ j ∈ l, ∃ e ∈ l, s'.ta[j] = (e.val : Int) ∧
+      ∀ j' ∈ l, s'.ta[j'] = (e.val : Int) → j' = j := by
+    intro j hj
+    obtain ⟨k, hk, rfl⟩ := List.getElem_of_mem hj
+    refine ⟨l[nextIdx l.length k]'(nextIdx_lt hk), List.getElem_mem _, hlink k hk, ?_⟩
+    intro j' hj' he
+    obtain ⟨k', hk', rfl⟩ := List.getElem_of_mem hj'
+    rw [hlink k' hk'] at he
+    have he2 : l[nextIdx l.length k']'(nextIdx_lt hk') = l[nextIdx l.length k]'(nextIdx_lt hk) := by
+      apply Fin.ext; omega
+    have := (hnd.getElem_inj_iff).1 he2
+    have := nextIdx_inj hk' hk this
+    subst this; rfl
+  have hval : ∀ j ∈ l, 0 ≤ s'.ta[j] := by
+    intro j hj
+    obtain ⟨e, _, he, _⟩ := hin j hj
+    rw [he]; omega
+  have hasleep_notin : ∀ k : Fin n, 0 ≤ s.ta[k] → k ∉ l := by
+    intro k hk hm; have := hrd k hm; omega
+  constructor
+  · intro j hj
+    by_cases hjl : j ∈ l
+    · obtain ⟨e, hel, he, _⟩ := hin j hjl
+      exact ⟨e, he, hval e hel⟩
+    · rw [hout j hjl] at hj ⊢
+      obtain ⟨k, hk, hk2⟩ := hc.closed j hj
+      exact ⟨k, hk, by rw [hout k (hasleep_notin k hk2)]; exact hk2⟩
+  · intro j k hj hk hjk
+    by_cases hjl : j ∈ l <;> by_cases hkl : k ∈ l
+    · obtain ⟨e, _, he, huniq⟩ := hin j hjl
+      exact (huniq k hkl (by rw [← hjk, he])).symm
+    · obtain ⟨e, hel, he, _⟩ := hin j hjl
+      rw [hout k hkl] at hk hjk
+      obtain ⟨k', hk', hk2'⟩ := hc.closed k hk
+      have : e = k' := by apply Fin.ext; omega
+      exact ((hasleep_notin k' hk2') (this ▸ hel)).elim
+    · obtain ⟨e, hel, he, _⟩ := hin k hkl
+      rw [hout j hjl] at hj hjk
+      obtain ⟨j', hj', hj2'⟩ := hc.closed j hj
+      have : e = j' := by apply Fin.ext; omega
+      exact ((hasleep_notin j' hj2') (this ▸ hel)).elim
+    · rw [hout j hjl] at hj hjk
+      rw [hout k hkl] at hk hjk
+      exact hc.inj j k hj hk hjk
+
+/-! ## zero velocity of sleeping trees -/
+
+/-- every dof in the dof range of a sleeping tree has zero velocity -/
+def ZInv (zero : V) (td : TreeDofs n nv) (s : St n nv V) : Prop :=
+  ∀ (t : Fin n) (i : Fin nv), 0 ≤ s.ta[t] → td.adr[t] ≤ i.val → i.val < td.adr[t] + td.num[t] → s.qvel[i] = zero
+
+theorem sleepTreesGo_zinv (zero : V) (td : TreeDofs n nv) (first : Fin n) :
+    ∀ (l : List (Fin n)) (s : St n nv V), ZInv zero td s → ZInv zero td (sleepTreesGo zero td first l s).1 := by
+  intro l
+  induction l with
+  | nil => intro s h; simpa [sleepTreesGo] using h
+  | cons cur rest ih =>
+    intro s h
+    simp only [sleepTreesGo]
+    by_cases hready : s.ta[cur] = -1
+    · rw [if_pos hready]
+      apply ih
+      intro t i ht h1 h2
+      simp only at ht ⊢
+      rw [zeroRange_get]
+      by_cases hr : td.adr[cur] ≤ i.val ∧ i.val < td.adr[cur] + td.num[cur]
+      · rw [if_pos hr]
+      · rw [if_neg hr]
+        rw [set_get_fin] at ht
+        by_cases hct : cur = t
+        · subst hct; exact (hr ⟨h1, h2⟩).elim
+        · rw [if_neg hct] at ht; exact h t i ht h1 h2
+    · rw [if_neg hready]
+      split <;> exact h
+
+theorem sleepTrees_zinv (zero : V) (td : TreeDofs n nv) (l : List (Fin n)) (s : St n nv V)
+    (h : ZInv zero td s) : ZInv zero td (sleepTrees zero td l s).1 := by
+  cases l with
+  | nil => simpa [sleepTrees] using h
+  | cons f r => simpa [sleepTrees] using sleepTreesGo_zinv zero td f (f :: r) s h
+
+/-! ## mj_sleep -/
+
+theorem countdown_get (can : Vector Bool n) (ta : TA n) (j : Fin n) :
+    (countdown can ta)[j] =
+      if ta[j] ≥ 0 then ta[j] else if can[j] then (if ta[j] < -1 then ta[j] + 1 else ta[j]) else kAwake := by
+  simp [countdown]
+
+theorem countdown_asleep (can : Vector Bool n) (ta : TA n) (j : Fin n) (h : 0 ≤ ta[j]) :
+    (countdown can ta)[j] = ta[j] := by
+  rw [countdown_get, if_pos h]
+
+theorem countdown_awake (can : Vector Bool n) (ta : TA n) (j : Fin n) (h : ta[j] < 0) :
+    (countdown can ta)[j] < 0 := by
+  rw [countdown_get, if_neg (by omega)]
+  unfold kAwake minAwake
+  split
+  · split <;> omega
+  · omega
+
+theorem countdown_cyc {ta : TA n} (can : Vector Bool n) (hc : Cyc ta) : Cyc (countdown can ta) := by
+  apply hc.awake_change
+  intro j
+  by_cases h : 0 ≤ ta[j]
+  · left; exact countdown_asleep can ta j h
+  · right; exact ⟨by omega, countdown_awake can ta j (by omega)⟩
+
+theorem sleepTrees_nil (zero : V) (td : TreeDofs n nv) (s : St n nv V) : sleepTrees zero td [] s = (s, none) := rfl
+
+theorem sleepIslands_cyc (zero : V) (td : TreeDofs n nv) :
+    ∀ (isls : List (List (Fin n))) (s s' : St n nv V) (k k' : Nat), Cyc s.ta →
+      sleepIslands zero td isls s k = (s', k', none) → Cyc s'.ta := by
+  intro isls
+  induction isls with
+  | nil => intro s s' k k' hc h; simp only [sleepIslands, Prod.mk.injEq, and_true] at h; rw [← h.1]; exact hc
+  | cons isl more ih =>
+    intro s s' k k' hc h
+    simp only [sleepIslands] at h
+    cases hcan : islandCanSleep s.ta isl with
+    | none => rw [hcan] at h; simp at h
+    | some b =>
+      rw [hcan] at h
+      cases b with
+      | false => exact ih _ _ _ _ hc h
+      | true =>
+        simp only at h
+        cases hres : sleepTrees zero td isl s with
+        | mk s1 e =>
+          rw [hres] at h
+          cases e with
+          | some e => simp at h
+          | none => exact ih _ _ _ _ (sleepTrees_cyc zero td isl s s1 hc hres) h
+
+theorem sleepSingles_cyc (zero : V) (td : TreeDofs n nv) :
+    ∀ (l : List (Fin n)) (s s' : St n nv V) (k k' : Nat), Cyc s.ta →
+      sleepSingles zero td l s k = (s', k', none) → Cyc s'.ta := by
+  intro l
+  induction l with
+  | nil => intro s s' k k' hc h; simp only [sleepSingles, Prod.mk.injEq, and_true] at h; rw [← h.1]; exact hc
+  | cons t more ih =>
+    intro s s' k k' hc h
+    simp only [sleepSingles] at h
+    by_cases hr : s.ta[t] = -1
+    · rw [if_pos hr] at h
+      cases hres : sleepTrees zero td [t] s with
+      | mk s1 e =>
+        rw [hres] at h
+        cases e with
+        | some e => simp at h
+        | none => exact ih _ _ _ _ (sleepTrees_cyc zero td [t] s s1 hc hres) h
+    · rw [if_neg hr] at h; exact ih _ _ _ _ hc h
+
+/-- `mj_sleep` preserves the cycle invariant whenever it completes. -/
+theorem sleep_cyc (zero : V) (td : TreeDofs n nv) (inp : SleepIn n) (s s' : St n nv V) (k : Nat)
+    (hc : Cyc s.ta) (h : sleep zero td inp s = (s', k, none)) : Cyc s'.ta := by
+  unfold sleep at h
+  by_cases h1 : (!inp.enabled) = true
+  · rw [if_pos h1] at h; simp only [Prod.mk.injEq, and_true] at h; rw [← h.1]; exact hc
+  · rw [if_neg h1] at h
+    by_cases h2 : inp.nefc ≠ 0 ∧ inp.islands.isEmpty = true
+    · rw [if_pos h2] at h; simp only [Prod.mk.injEq, and_true] at h; rw [← h.1]; exact hc
+    · rw [if_neg h2] at h
+      simp only at h
+      cases hres : sleepIslands zero td inp.islands { s with ta := countdown inp.can s.ta } 0 with
+      | mk s2 r =>
+        obtain ⟨k2, e⟩ := r
+        rw [hres] at h
+        cases e with
+        | some e => simp at h
+        | none =>
+          simp only at h
+          have hc2 := sleepIslands_cyc zero td _ _ _ _ _ (countdown_cyc inp.can hc) hres
+          exact sleepSingles_cyc zero td _ _ _ _ _ hc2 h
+
+theorem sleepIslands_zinv (zero : V) (td : TreeDofs n nv) :
+    ∀ (isls : List (List (Fin n))) (s : St n nv V) (k : Nat), ZInv zero td s →
+      ZInv zero td (sleepIslands zero td isls s k).1 := by
+  intro isls
+  induction isls with
+  | nil => intro s k h; simpa [sleepIslands] using h
+  | cons isl more ih =>
+    intro s k h
+    simp only [sleepIslands]
+    cases hcan : islandCanSleep s.ta isl with
+    | none => exact h
+    | some b =>
+      cases b with
+      | false => exact ih _ _ h
+      | true =>
+        simp only
+        have hz := sleepTrees_zinv zero td isl s h
+        cases hres : sleepTrees zero td isl s with
+        | mk s1 e =>
+          rw [hres] at hz
+          cases e with
+          | some e => exact hz
+          | none => exact ih _ _ hz
+
+theorem sleepSingles_zinv (zero : V) (td : TreeDofs n nv) :
+    ∀ (l : List (Fin n)) (s : St n nv V) (k : Nat), ZInv zero td s →
+      ZInv zero td (sleepSingles zero td l s k).1 := by
+  intro l
+  induction l with
+  | nil => intro s k h; simpa [sleepSingles] using h
+  | cons t more ih =>
+    intro s k h
+    simp only [sleepSingles]
+    by_cases hr : s.ta[t] = -1
+    · rw [if_pos hr]
+      have hz := sleepTrees_zinv zero td [t] s h
+      cases hres : sleepTrees zero td [t] s with
+      | mk s1 e =>
+        rw [hres] at hz
+        cases e with
+        | some e => exact hz
+        | none => exact ih _ _ hz
+    · rw [if_neg hr]; exact ih _ _ h
+
+/-- `mj_sleep` keeps "sleeping trees have zero velocity" (on every exit). -/
+theorem sleep_zinv (zero : V) (td : TreeDofs n nv) (inp : SleepIn n) (s : St n nv V)
+    (h : ZInv zero td s) : ZInv zero td (sleep zero td inp s).1 := by
+  unfold sleep
+  by_cases h1 : (!inp.enabled) = true
+  · rw [if_pos h1]; exact h
+  · rw [if_neg h1]
+    by_cases h2 : inp.nefc ≠ 0 ∧ inp.islands.isEmpty = true
+    · rw [if_pos h2]; exact h
+    · rw [if_neg h2]
+      simp only
+      have h0 : ZInv zero td ({ s with ta := countdown inp.can s.ta } : St n nv V) := by
+        intro t i ht a b
+        simp only at ht ⊢
+        have hs : 0 ≤ s.ta[t] := by
+          by_contra hh
+          have := countdown_awake inp.can s.ta t (by omega); omega
+        exact h t i hs a b
+      have hz := sleepIslands_zinv zero td inp.islands _ 0 h0
+      cases hres : sleepIslands zero td inp.islands { s with ta := countdown inp.can s.ta } 0 with
+      | mk s2 r =>
+        obtain ⟨k2, e⟩ := r
+        rw [hres] at hz
+        cases e with
+        | some e => exact hz
+        | none => exact sleepSingles_zinv zero td _ _ _ hz
+
+/-! ## mj_wake, mj_wakeCollision -/
+
+theorem kAwake_neg : kAwake < 0 := by unfold kAwake minAwake; omega
+
+theorem wakeSweep_cyc (flag : Vector Bool n) :
+    ∀ (l : List (Fin n)) (ta : TA n) (k : Nat), Cyc ta → Cyc (wakeSweep flag l ta k).1 := by
+  intro l
+  induction l with
+  | nil => intro ta k hc; simpa [wakeSweep] using hc
+  | cons i more ih =>
+    intro ta k hc
+    simp only [wakeSweep]
+    split
+    · have hc' := wakeIsland_cyc hc (i.val : Int) kAwake_neg
+      cases hres : wakeIsland ta (i.val : Int) kAwake with
+      | mk ta' r =>
+        rw [hres] at hc'
+        cases r with
+        | ok w => exact ih _ _ hc'
+        | err e => exact hc'
+    · exact ih _ _ hc
+
+/-- `mj_wake` preserves the cycle invariant. -/
+theorem wake_cyc {ta : TA n} (enabled : Bool) (nta : Nat) (flag : Vector Bool n) (hc : Cyc ta) :
+    Cyc (wake enabled nta flag ta).1 := by
+  unfold wake
+  split
+  · simp only
+    split
+    · apply cyc_of_all_awake; intro j; simp [kAwake_neg]
+    · exact hc
+  · exact wakeSweep_cyc flag _ _ _ hc
+
+/-- the stale `tree_awake` array only claims "awake" for trees that are awake -/
+def StaleOk (stale : Vector Bool n) (ta : TA n) : Prop := ∀ t : Fin n, stale[t] = true → ta[t] < 0
+
+theorem wakeIsland_staleOk {ta : TA n} {stale : Vector Bool n} (hc : Cyc ta) (hs : StaleOk stale ta) (i : Int)
+    {w : Int} (hw : w < 0) : StaleOk stale (wakeIsland ta i w).1 :=
+  fun t ht => wakeIsland_awake_mono hc i hw t (hs t ht)
+
+theorem wakeContact_cyc {ta : TA n} {stale : Vector Bool n} (hc : Cyc ta) (hs : StaleOk stale ta) (c : Contact n) :
+    Cyc (wakeContact stale ta c).1 ∧ StaleOk stale (wakeContact stale ta c).1 := by
+  unfold wakeContact
+  split
+  · exact ⟨hc, hs⟩
+  · split
+    · exact ⟨wakeIsland_cyc hc _ kAwake_neg, wakeIsland_staleOk hc hs _ kAwake_neg⟩
+    · exact ⟨hc, hs⟩
+  · split
+    · exact ⟨wakeIsland_cyc hc _ kAwake_neg, wakeIsland_staleOk hc hs _ kAwake_neg⟩
+    · exact ⟨hc, hs⟩
+  · rename_i t1 t2 _ _
+    split
+    · exact ⟨hc, hs⟩
+    · split
+      · exact ⟨hc, hs⟩
+      · split
+        · rename_i h1
+          have hw : ta[t1] < 0 := hs t1 h1
+          exact ⟨wakeIsland_cyc hc _ hw, wakeIsland_staleOk hc hs _ hw⟩
+        · rename_i hnn h1
+          have h2 : stale[t2] = true := by
+            by_contra h2
+            apply hnn
+            simp only [Bool.not_eq_true] at h1 h2
+            simp [h1, h2]
+          have hw : ta[t2] < 0 := hs t2 h2
+          exact ⟨wakeIsland_cyc hc _ hw, wakeIsland_staleOk hc hs _ hw⟩
+
+theorem wakeCollisionGo_cyc (stale : Vector Bool n) :
+    ∀ (cs : List (Contact n)) (ta : TA n) (k : Nat), Cyc ta → StaleOk stale ta →
+      Cyc (wakeCollisionGo stale cs ta k).1 := by
+  intro cs
+  induction cs with
+  | nil => intro ta k hc _; simpa [wakeCollisionGo] using hc
+  | cons c more ih =>
+    intro ta k hc hs
+    simp only [wakeCollisionGo]
+    obtain ⟨h1, h2⟩ := wakeContact_cyc hc hs c
+    cases hres : wakeContact stale ta c with
+    | mk ta' r =>
+      rw [hres] at h1 h2
+      cases r with
+      | ok w => exact ih _ _ h1 h2
+      | err e => exact h1
+
+/-- `mj_wakeCollision` preserves the cycle invariant. -/
+theorem wakeCollision_cyc {ta : TA n} (enabled : Bool) (stale : Vector Bool n) (cs : List (Contact n))
+    (hc : Cyc ta) (hs : StaleOk stale ta) : Cyc (wakeCollision enabled stale cs ta).1 := by
+  unfold wakeCollision
+  split
+  · exact hc
+  · exact wakeCollisionGo_cyc stale cs ta 0 hc hs
+
+theorem wakeIsland_self {ta : TA n} (hc : Cyc ta) (i : Fin n) {w : Int} (hw : w < 0) :
+    (wakeIsland ta (i.val : Int) w).1[i] < 0 := by
+  by_cases hi : 0 ≤ ta[i]
+  · rw [wakeIsland_asleep hc i hi w]
+    simp only; rw [wokeUpTo_period hc, if_pos ⟨0, rfl⟩]; exact hw
+  · exact wakeIsland_awake_mono hc _ hw i (by omega)
+
+theorem wakeContact_mono {ta : TA n} {stale : Vector Bool n} (hc : Cyc ta) (hs : StaleOk stale ta) (c : Contact n)
+    (j : Fin n) (hj : ta[j] < 0) : (wakeContact stale ta c).1[j] < 0 := by
+  unfold wakeContact
+  split
+  · exact hj
+  · split
+    · exact wakeIsland_awake_mono hc _ kAwake_neg j hj
+    · exact hj
+  · split
+    · exact wakeIsland_awake_mono hc _ kAwake_neg j hj
+    · exact hj
+  · rename_i t1 t2 _ _
+    split
+    · exact hj
+    · split
+      · exact hj
+      · split
+        · rename_i h1
+          exact wakeIsland_awake_mono hc _ (hs t1 h1) j hj
+        · rename_i hnn h1
+          have h2 : stale[t2] = true := by
+            by_contra h2
+            apply hnn
+            simp only [Bool.not_eq_true] at h1 h2
+            simp [h1, h2]
+          exact wakeIsland_awake_mono hc _ (hs t2 h2) j hj
+
+/-- awake trees of `ta` are awake in `ta'` -/
+def AwakeSub (ta ta' : TA n) : Prop := ∀ j : Fin n, ta[j] < 0 → ta'[j] < 0
+
+theorem wakeCollisionGo_mono (stale : Vector Bool n) :
+    ∀ (cs : List (Contact n)) (ta : TA n) (k : Nat), Cyc ta → StaleOk stale ta →
+      AwakeSub ta (wakeCollisionGo stale cs ta k).1 := by
+  intro cs
+  induction cs with
+  | nil => intro ta k _ _ j hj; simpa [wakeCollisionGo] using hj
+  | cons c more ih =>
+    intro ta k hc hs
+    simp only [wakeCollisionGo]
+    obtain ⟨h1, h2⟩ := wakeContact_cyc hc hs c
+    have h3 : AwakeSub ta (wakeContact stale ta c).1 := fun j hj => wakeContact_mono hc hs c j hj
+    cases hres : wakeContact stale ta c with
+    | mk ta' r =>
+      rw [hres] at h1 h2 h3
+      cases r with
+      | ok w => exact fun j hj => ih _ _ h1 h2 j (h3 j hj)
+      | err e => exact h3
+
+/-- both trees awake -/
+def BothAwake (ta : TA n) (t1 t2 : Fin n) : Prop := ta[t1] < 0 ∧ ta[t2] < 0
+
+theorem wakeContact_wakes {ta : TA n} {stale : Vector Bool n} (hc : Cyc ta) (hs : StaleOk stale ta) (c : Contact n)
+    (t1 t2 : Fin n) (h1 : c.tree1 = some t1) (h2 : c.tree2 = some t2)
+    (hst : stale[t1] = true ∨ stale[t2] = true) :
+    BothAwake (wakeContact stale ta c).1 t1 t2 := by
+  unfold BothAwake
+  unfold wakeContact
+  simp only [h1, h2]
+  split
+  · rename_i hb; exact ⟨hs t1 hb.1, hs t2 hb.2⟩
+  · split
+    · rename_i hn hb
+      rcases hst with h | h
+      · simp [h] at hb
+      · simp [h] at hb
+    · split
+      · rename_i hb
+        exact ⟨wakeIsland_awake_mono hc _ (hs t1 hb) t1 (hs t1 hb), wakeIsland_self hc t2 (hs t1 hb)⟩
+      · rename_i hb
+        have hb2 : stale[t2] = true := by
+          rcases hst with h | h
+          · exact (hb h).elim
+          · exact h
+        exact ⟨wakeIsland_self hc t1 (hs t2 hb2), wakeIsland_awake_mono hc _ (hs t2 hb2) t2 (hs t2 hb2)⟩
+
+/-- After a completed `mj_wakeCollision` every contact between two trees of which the (stale) `tree_awake`
+    array reports at least one as awake has both trees awake. -/
+theorem wakeCollisionGo_wakes (stale : Vector Bool n) :
+    ∀ (cs : List (Contact n)) (ta : TA n) (k : Nat), Cyc ta → StaleOk stale ta →
+      ∀ (ta' : TA n) (k' : Nat), wakeCollisionGo stale cs ta k = (ta', .ok k') →
+      ∀ c ∈ cs, ∀ t1 t2 : Fin n, c.tree1 = some t1 → c.tree2 = some t2 →
+        (stale[t1] = true ∨ stale[t2] = true) → ta'[t1] < 0 ∧ ta'[t2] < 0 := by
+  intro cs
+  induction cs with
+  | nil => intro ta k _ _ ta' k' _ c hc; simp at hc
+  | cons c0 more ih =>
+    intro ta k hc hs ta' k' hres c hcm t1 t2 h1 h2 hst
+    simp only [wakeCollisionGo] at hres
+    obtain ⟨g1, g2⟩ := wakeContact_cyc hc hs c0
+    cases hr : wakeContact stale ta c0 with
+    | mk ta1 r =>
+      rw [hr] at hres g1 g2
+      cases r with
+      | err e => simp at hres
+      | ok w =>
+        simp only at hres
+        rcases List.mem_cons.1 hcm with rfl | hcm
+        · have hw := wakeContact_wakes hc hs c t1 t2 h1 h2 hst
+          rw [hr] at hw
+          have hm := wakeCollisionGo_mono stale more ta1 (k + w) g1 g2
+          rw [hres] at hm
+          exact ⟨hm t1 hw.1, hm t2 hw.2⟩
+        · exact ih ta1 (k + w) g1 g2 ta' k' hres c hcm t1 t2 h1 h2 hst
+
+/-! ## `mj_sleep` returning 0 changed nothing but the countdowns -/
+
+theorem sleepIslands_mono (zero : V) (td : TreeDofs n nv) :
+    ∀ (isls : List (List (Fin n))) (s s' : St n nv V) (k k' : Nat),
+      sleepIslands zero td isls s k = (s', k', none) → k ≤ k' ∧ (k' = k → s' = s) := by
+  intro isls
+  induction isls with
+  | nil =>
+    intro s s' k k' h
+    simp only [sleepIslands, Prod.mk.injEq, and_true] at h
+    exact ⟨by omega, fun _ => h.1.symm⟩
+  | cons isl more ih =>
+    intro s s' k k' h
+    simp only [sleepIslands] at h
+    cases hcan : islandCanSleep s.ta isl with
+    | none => rw [hcan] at h; simp at h
+    | some b =>
+      rw [hcan] at h
+      cases b with
+      | false => exact ih _ _ _ _ h
+      | true =>
+        simp only at h
+        cases hres : sleepTrees zero td isl s with
+        | mk s1 e =>
+          rw [hres] at h
+          cases e with
+          | some e => simp at h
+          | none =>
+            simp only at h
+            obtain ⟨h1, h2⟩ := ih _ _ _ _ h
+            refine ⟨by omega, fun hk => ?_⟩
+            have hl : isl.length = 0 := by omega
+            have : isl = [] := List.length_eq_zero_iff.1 hl
+            subst this
+            rw [sleepTrees_nil] at hres
+            have hs1 : s1 = s := by injection hres with a _; exact a.symm
+            rw [h2 (by simp at hk ⊢; omega), hs1]
+
+theorem sleepSingles_mono (zero : V) (td : TreeDofs n nv) :
+    ∀ (l : List (Fin n)) (s s' : St n nv V) (k k' : Nat),
+      sleepSingles zero td l s k = (s', k', none) → k ≤ k' ∧ (k' = k → s' = s) := by
+  intro l
+  induction l with
+  | nil =>
+    intro s s' k k' h
+    simp only [sleepSingles, Prod.mk.injEq, and_true] at h
+    exact ⟨by omega, fun _ => h.1.symm⟩
+  | cons t more ih =>
+    intro s s' k k' h
+    simp only [sleepSingles] at h
+    by_cases hr : s.ta[t] = -1
+    · rw [if_pos hr] at h
+      cases hres : sleepTrees zero td [t] s with
+      | mk s1 e =>
+        rw [hres] at h
+        cases e with
+        | some e => simp at h
+        | none =>
+          simp only at h
+          obtain ⟨h1, _⟩ := ih _ _ _ _ h
+          exact ⟨by omega, fun hk => by omega⟩
+    · rw [if_neg hr] at h; exact ih _ _ _ _ h
+
+theorem sleep_zero (zero : V) (td : TreeDofs n nv) (inp : SleepIn n) (s s' : St n nv V)
+    (h : sleep zero td inp s = (s', 0, none)) :
+    (∀ t : Fin n, s'.ta[t] < 0 ↔ s.ta[t] < 0) ∧ s'.qvel = s.qvel := by
+  unfold sleep at h
+  by_cases h1 : (!inp.enabled) = true
+  · rw [if_pos h1] at h; simp only [Prod.mk.injEq, and_true] at h; rw [← h]; exact ⟨fun _ => Iff.rfl, rfl⟩
+  · rw [if_neg h1] at h
+    by_cases h2 : inp.nefc ≠ 0 ∧ inp.islands.isEmpty = true
+    · rw [if_pos h2] at h; simp only [Prod.mk.injEq, and_true] at h; rw [← h]; exact ⟨fun _ => Iff.rfl, rfl⟩
+    · rw [if_neg h2] at h
+      simp only at h
+      cases hres : sleepIslands zero td inp.islands { s with ta := countdown inp.can s.ta } 0 with
+      | mk s2 r =>
+        obtain ⟨k2, e⟩ := r
+        rw [hres] at h
+        cases e with
+        | some e => simp at h
+        | none =>
+          simp only at h
+          obtain ⟨a1, a2⟩ := sleepIslands_mono zero td _ _ _ _ _ hres
+          obtain ⟨b1, b2⟩ := sleepSingles_mono zero td _ _ _ _ _ h
+          have hk2 : k2 = 0 := by omega
+          have e2 := a2 hk2
+          have e1 := b2 (by omega)
+          rw [e1, e2]
+          refine ⟨fun t => ?_, rfl⟩
+          simp only
+          constructor
+          · intro hh
+            by_contra hn
+            rw [countdown_asleep _ _ _ (by omega)] at hh; omega
+          · intro hh; exact countdown_awake _ _ _ hh
+
+/-! ## mj_updateSleepInit -/
+
+variable {nbody : Nat}
+
+theorem finRange_lt_mem_pre {m : Nat} {pre more : List (Fin m)} {i j : Fin m}
+    (h : List.finRange m = pre ++ i :: more) (hj : j.val < i.val) : j ∈ pre := by
+  have hm : j ∈ List.finRange m := List.mem_finRange j
+  rw [h] at hm
+  rcases List.mem_append.1 hm with hp | hp
+  · exact hp
+  · exfalso
+    rcases List.mem_cons.1 hp with rfl | hp
+    · omega
+    · have hpw := List.pairwise_lt_finRange m
+      rw [h, List.pairwise_append] at hpw
+      have := (List.pairwise_cons.1 hpw.2.1).1 j hp
+      rw [Fin.lt_def] at this; omega
+
+theorem filter_snoc_reverse {α : Type} (p : α → Bool) (pre : List α) (i : α) :
+    ((pre ++ [i]).filter p).reverse = if p i = true then i :: (pre.filter p).reverse else (pre.filter p).reverse := by
+  rw [List.filter_append, List.reverse_append]
+  by_cases h : p i = true
+  · rw [if_pos h]; simp [List.filter_cons, h]
+  · rw [if_neg h]; simp [List.filter_cons, h]
+
+theorem bodyLoop_spec (flg : Bool) (ta : TA n) (tp : BodyTopo n nbody nv)
+    (hpar : ∀ i : Fin nbody, i.val ≠ 0 → (tp.parentid[i]).val < i.val) :
+    ∀ (l pre : List (Fin nbody)) (ba : Vector Int nbody) (bi pi : List (Fin nbody)),
+      List.finRange nbody = pre ++ l →
+      (∀ j ∈ pre, ba[j] = bodyState flg ta tp j) →
+      bi = (pre.filter fun j => decide (bodyState flg ta tp j ≠ sAsleep)).reverse →
+      pi = (pre.filter fun j => decide (j.val ≠ 0 ∧ bodyState flg ta tp tp.parentid[j] ≠ sAsleep)).reverse →
+      (∀ j : Fin nbody, (bodyLoop flg ta tp l ba bi pi).1[j] = bodyState flg ta tp j) ∧
+      (bodyLoop flg ta tp l ba bi pi).2.1 =
+        (List.finRange nbody).filter (fun j => decide (bodyState flg ta tp j ≠ sAsleep)) ∧
+      (bodyLoop flg ta tp l ba bi pi).2.2 =
+        (List.finRange nbody).filter (fun j => decide (j.val ≠ 0 ∧ bodyState flg ta tp tp.parentid[j] ≠ sAsleep)) := by
+  intro l
+  induction l with
+  | nil =>
+    intro pre ba bi pi hfr hba hbi hpi
+    simp only [List.append_nil] at hfr
+    simp only [bodyLoop]
+    refine ⟨fun j => hba j (hfr ▸ List.mem_finRange j), ?_, ?_⟩
+    · rw [hbi, List.reverse_reverse, hfr]
+    · rw [hpi, List.reverse_reverse, hfr]
+  | cons i more ih =>
+    intro pre ba bi pi hfr hba hbi hpi
+    simp only [bodyLoop]
+    have hi_notin : i ∉ pre := by
+      intro hm
+      have hnd := List.nodup_finRange nbody
+      rw [hfr] at hnd
+      have := (List.nodup_append.1 hnd).2.2 i hm i List.mem_cons_self
+      exact this rfl
+    have hself : (ba.set i (bodyState flg ta tp i))[i] = bodyState flg ta tp i := by
+      rw [set_get_fin, if_pos rfl]
+    have hparent : i.val ≠ 0 → (ba.set i (bodyState flg ta tp i))[tp.parentid[i]] = bodyState flg ta tp tp.parentid[i] := by
+      intro h0
+      have hlt := hpar i h0
+      rw [set_get_fin, if_neg (by intro e; rw [← e] at hlt; omega)]
+      exact hba _ (finRange_lt_mem_pre hfr hlt)
+    apply ih (pre ++ [i])
+    · rw [hfr]; simp
+    · intro j hj
+      rcases List.mem_append.1 hj with hj | hj
+      · rw [set_get_fin, if_neg (by intro e; exact hi_notin (e ▸ hj))]
+        exact hba j hj
+      · have : j = i := by simpa using hj
+        subst this; exact hself
+    · rw [hself, filter_snoc_reverse, hbi]
+      by_cases hp : bodyState flg ta tp i ≠ sAsleep
+      · rw [if_pos hp, if_pos (decide_eq_true hp)]
+      · rw [if_neg hp, if_neg (by rw [decide_eq_true_iff]; exact hp)]
+    · rw [filter_snoc_reverse, hpi]
+      by_cases h0 : i.val ≠ 0
+      · rw [hparent h0]
+        by_cases hp : bodyState flg ta tp tp.parentid[i] ≠ sAsleep
+        · rw [if_pos ⟨h0, hp⟩, if_pos (decide_eq_true ⟨h0, hp⟩)]
+        · rw [if_neg (fun h => hp h.2), if_neg (by rw [decide_eq_true_iff]; exact fun h => hp h.2)]
+      · rw [if_neg (fun h => h0 h.1), if_neg (by rw [decide_eq_true_iff]; exact fun h => h0 h.1)]
+
+/-- what the derived arrays are, as filtered index lists -/
+structure DerivedSpec (tp : BodyTopo n nbody nv) (flg : Bool) (ta : TA n) (der : Derived n nbody nv) : Prop where
+  treeAwake : ∀ t : Fin n, der.treeAwake[t] = if ta[t] < 0 then 1 else 0
+  ntree : der.ntreeAwake = ((List.finRange n).filter fun t => decide (ta[t] < 0)).length
+  bodyAwake : ∀ b : Fin nbody, der.bodyAwake[b] = bodyState flg ta tp b
+  bodyInd : der.bodyAwakeInd = (List.finRange nbody).filter fun b => decide (bodyState flg ta tp b ≠ sAsleep)
+  parentInd : der.parentAwakeInd =
+    (List.finRange nbody).filter fun b => decide (b.val ≠ 0 ∧ bodyState flg ta tp tp.parentid[b] ≠ sAsleep)
+  dofInd : der.dofAwakeInd = (List.finRange nv).filter fun i =>
+    decide ((tp.treeid[tp.dofBody[i]]).isSome ∧ bodyState flg ta tp tp.dofBody[i] = sAwake)
+
+theorem updateSleepInit_spec (flg : Bool) (ta : TA n) (tp : BodyTopo n nbody nv) (old : Vector Int nbody)
+    (hpar : ∀ i : Fin nbody, i.val ≠ 0 → (tp.parentid[i]).val < i.val) :
+    DerivedSpec tp flg ta (updateSleepInit flg ta tp old) := by
+  obtain ⟨h1, h2, h3⟩ := bodyLoop_spec flg ta tp hpar (List.finRange nbody) [] old [] []
+    (by simp) (by simp) (by simp) (by simp)
+  unfold updateSleepInit
+  cases hres : bodyLoop flg ta tp (List.finRange nbody) old [] [] with
+  | mk ba r =>
+    obtain ⟨bi, pi⟩ := r
+    rw [hres] at h1 h2 h3
+    simp only at h1 h2 h3 ⊢
+    constructor
+    · intro t; simp
+    · rfl
+    · exact h1
+    · exact h2
+    · exact h3
+    · simp only
+      apply List.filter_congr
+      intro i _
+      rw [h1]
+
+theorem bodyState_congr (flg : Bool) {ta ta' : TA n} (tp : BodyTopo n nbody nv)
+    (h : ∀ t : Fin n, ta'[t] < 0 ↔ ta[t] < 0) (b : Fin nbody) :
+    bodyState flg ta' tp b = bodyState flg ta tp b := by
+  unfold bodyState
+  split
+  · rfl
+  · rename_i t _
+    by_cases ht : ta[t] < 0
+    · rw [if_pos ht, if_pos ((h t).2 ht)]
+    · rw [if_neg ht, if_neg (fun hh => ht ((h t).1 hh))]
+
+theorem DerivedSpec.congr {tp : BodyTopo n nbody nv} {flg : Bool} {ta ta' : TA n} {der : Derived n nbody nv}
+    (hd : DerivedSpec tp flg ta der) (h : ∀ t : Fin n, ta'[t] < 0 ↔ ta[t] < 0) : DerivedSpec tp flg ta' der := by
+  have hb := bodyState_congr flg tp h
+  constructor
+  · intro t; rw [hd.treeAwake t]
+    by_cases ht : ta[t] < 0
+    · rw [if_pos ht, if_pos ((h t).2 ht)]
+    · rw [if_neg ht, if_neg (fun hh => ht ((h t).1 hh))]
+  · rw [hd.ntree]; congr 1; apply List.filter_congr; intro t _; rw [decide_eq_decide]; exact (h t).symm
+  · intro b; rw [hd.bodyAwake b, hb]
+  · rw [hd.bodyInd]; apply List.filter_congr; intro b _; rw [hb]
+  · rw [hd.parentInd]; apply List.filter_congr; intro b _; rw [hb]
+  · rw [hd.dofInd]; apply List.filter_congr; intro i _; rw [hb]
+
+/-! ## mj_advance -/
+
+variable {njnt : Nat} {P : Type}
+
+theorem addToSclInd_notin (addScl : V → V → V) (qacc : Vector V nv) :
+    ∀ (L : List (Fin nv)) (v : Vector V nv) (i : Fin nv), i ∉ L → (addToSclInd addScl qacc L v)[i] = v[i] := by
+  intro L
+  induction L with
+  | nil => intro v i _; rfl
+  | cons a more ih =>
+    intro v i hi
+    simp only [addToSclInd]
+    rw [ih _ i (fun h => hi (List.mem_cons_of_mem _ h))]
+    rw [Fin.getElem_fin, Vector.getElem_set_ne]
+    · rfl
+    · intro e; exact hi (by rw [show i = a from (Fin.ext e).symm]; exact List.mem_cons_self)
+
+theorem foldl_set_notin (f : Fin njnt → Vector P njnt → P) :
+    ∀ (js : List (Fin njnt)) (q : Vector P njnt) (j : Fin njnt), j ∉ js →
+      (js.foldl (fun (q : Vector P njnt) (j' : Fin njnt) => q.set j' (f j' q)) q)[j] = q[j] := by
+  intro js
+  induction js with
+  | nil => intro q j _; rfl
+  | cons a more ih =>
+    intro q j hj
+    simp only [List.foldl_cons]
+    rw [ih _ j (fun h => hj (List.mem_cons_of_mem _ h))]
+    rw [Fin.getElem_fin, Vector.getElem_set_ne]
+    · rfl
+    · intro e; exact hj (by rw [show j = a from (Fin.ext e).symm]; exact List.mem_cons_self)
+
+theorem integratePosInd_notin (bj : BodyJnts nbody njnt) (integ : Fin njnt → P → Vector V nv → P)
+    (qvel : Vector V nv) :
+    ∀ (bodies : List (Fin nbody)) (q : Vector P njnt) (j : Fin njnt),
+      (∀ b ∈ bodies, j ∉ bj.joints b) → (integratePosInd bj integ qvel bodies q)[j] = q[j] := by
+  intro bodies
+  induction bodies with
+  | nil => intro q j _; rfl
+  | cons b more ih =>
+    intro q j hj
+    simp only [integratePosInd]
+    rw [ih _ j (fun b' hb' => hj b' (List.mem_cons_of_mem _ hb'))]
+    exact foldl_set_notin (fun j' q => integ j' q[j'] qvel) _ q j (hj b List.mem_cons_self)
 
 end MjProof.Sleep
